@@ -165,6 +165,44 @@ func c05Check(ctx *vfCtx, c c05Case) {
 			ctx.Fail("C05/signature-dropped"+kc, "signature of %s missing from the redacted event %q", who, red)
 		}
 	}
+
+	// a signature made by the library itself (PDU.Sign, what Build and HandleInvite use) on the
+	// unredacted event survives Redact(): it covers the redacted form
+	var signed PDU
+	lpub, lpriv := vfKeyFor("c05:lib-signer")
+	if vfCatch(ctx, "C05/lib-sign", func() {
+		fresh, e := impl.NewEventFromTrustedJSON(append([]byte(nil), c.Event...), false)
+		if e == nil {
+			signed = fresh.Sign("lib.example", "ed25519:lib", lpriv)
+		}
+	}) || signed == nil {
+		return
+	}
+	ctx.Class("lib-signed")
+	st, serr := evTree(signed.JSON())
+	if serr != nil {
+		ctx.Fail("C05/lib-sign/malformed", "Sign() produced malformed JSON %q", signed.JSON())
+		return
+	}
+	if sg, ok := c02SigOfTree(st, "lib.example", "ed25519:lib"); ok {
+		raw, _ := base64.RawStdEncoding.DecodeString(sg)
+		if !ed25519.Verify(lpub, []byte(jcanon(rredact(c.Version, st).without("signatures", "unsigned"))), raw) {
+			ctx.Fail("C05/lib-signature-not-over-redacted-form"+kc, "PDU.Sign() signature does not verify (independent ed25519) over the redacted form of the event %q", signed.JSON())
+		}
+	} else {
+		ctx.Fail("C05/lib-sign/no-signature", "Sign() added no signature: %q", signed.JSON())
+		return
+	}
+	if vfCatch(ctx, "C05/lib-sign", func() { signed.Redact() }) {
+		return
+	}
+	var verr error
+	if vfCatch(ctx, "C05/lib-sign", func() { verr = VerifyJSON("lib.example", "ed25519:lib", lpub, signed.JSON()) }) {
+		return
+	}
+	if verr != nil {
+		ctx.Fail("C05/lib-signature-lost-by-redaction"+kc, "a signature made with PDU.Sign() no longer verifies after Redact(): %v; redacted=%q", verr, signed.JSON())
+	}
 }
 
 // c05DiffTag names the first differing key (stable signature component).
